@@ -28,13 +28,18 @@ fn timer() -> Timer {
 /// calibrations under it: `Timer::precision()` on a clock advancing `step`
 /// ticks per read (so the precision is `step` ps) and `bench_overheads()` on a
 /// frozen clock (so every overhead is 0). Returns the precision in ps.
-pub fn calibrate(step: u64) -> u128 {
+///
+/// With `warm_overheads == false` the overhead calibration is left to the
+/// first benchmark of the process, as in a real run.
+pub fn calibrate(step: u64, warm_overheads: bool) -> u128 {
     vclock::reset();
     vclock::ENABLED.store(true, SeqCst);
     vclock::READ_STEP.store(step, SeqCst);
     let precision = timer().precision().picos;
     vclock::READ_STEP.store(0, SeqCst);
-    let _ = timer().bench_overheads();
+    if warm_overheads {
+        let _ = timer().bench_overheads();
+    }
     vclock::reset();
     precision
 }
